@@ -24,6 +24,10 @@ CLAIMS = {
             "Decides that nothing but DeepCopy results enters or leaves the store and the read cache, that every in-place write of the "
             "copy-on-write metadata containers targets storage created in the same call, that the module's DeepCopy implementations copy "
             "their mutable parts, and that raw maps are never written. DeepCopy of user spec types is the user's obligation.", "§3 C19"),
+    "C04": ("path-cut on the retry loop + value provenance of the mutated copy + option-table checks",
+            "Decides the mechanism that makes the helpers atomic: mutate a deep copy of the value just read, submit and return exactly "
+            "it, retry only on a plain version conflict after re-reading, test the expected phase before anything else, never report an "
+            "error after a successful write. Serializability as a whole follows with C01's version token and is argued, not mechanised.", "§3 C04"),
     "C07": ("path-cut (must-precede) analysis on go/ssa control-flow graphs",
             "Decides, for every path of every generic controller's reconcile code, the write-order clauses of the property "
             "(finalizer before output, destroy only when ready/empty, finalizer released only after destroy/handler success) "
